@@ -164,6 +164,16 @@ def guarded(f):
 
 def negotiate(a, b):
 	from httoop.server import ServerStateMachine
+	if (a, b) > (1, 1):
+		# a version the server does not speak is refused as such: with and without a Host field, and as soon as the request line is there
+		from httoop.status import HTTP_VERSION_NOT_SUPPORTED
+		for wire in (b'GET / HTTP/%d.%d\r\n\r\n' % (a, b), b'GET / HTTP/%d.%d\r\n' % (a, b), b'GET / HTTP/%d.%d\r\nHost: a b\r\n\r\n' % (a, b)):
+			sm0 = ServerStateMachine('http', 'localhost', 80)
+			try:
+				sm0.parse(wire)
+			except HTTP_VERSION_NOT_SUPPORTED:
+				continue
+			raise AssertionError('request %r is not answered with 505' % wire)
 	sm = ServerStateMachine('http', 'localhost', 80)
 	out = sm.parse(b'GET / HTTP/%d.%d\r\nHost: localhost\r\n\r\n' % (a, b))
 	(request, response), = out
@@ -174,9 +184,14 @@ def negotiate_seq(versions):
 	from httoop.server import ServerStateMachine
 	sm = ServerStateMachine('http', 'localhost', 80)
 	out = []
-	for a, b in versions:
+	for i, (a, b) in enumerate(versions):
 		def f():
-			(request, response), = sm.parse(b'GET / HTTP/%d.%d\r\nHost: localhost\r\n\r\n' % (a, b))
+			# requests of different length, the first ones arriving in pieces cut inside the request line
+			line = b'GET /%s HTTP/%d.%d\r\nHost: localhost\r\n\r\n' % (b'long/path/' * (3 - i) if i < 3 else b'', a, b)
+			got = []
+			for piece in ((line[:17], line[17:30], line[30:]) if i % 2 == 0 else (line,)):
+				got.extend(sm.parse(piece))
+			(request, response), = got
 			return '%d %d' % tuple(response.protocol)
 		out.append(guarded(f))
 	return out
